@@ -1,4 +1,4 @@
-import FxVerif.Proofs.C11Ref
+import FxVerif.Proofs.C11Fresh
 /-!
 # C11 — transferring delegation shares conserves shares, stake and reward entitlements
 
@@ -437,6 +437,26 @@ theorem still_withdrawable_partial (nAcc h0 : Nat) (vals : List (Nat × Nat)) (h
   · rcases unbond_full_total hi (h := h) hd hdel with hE | ⟨v', ret, c, hu, hn, _⟩
     · exact Or.inl hE
     · exact Or.inr ⟨v', ret, c, hu, hn⟩
+
+/-- **transfer_reinitialises.**  After any history, a successful transfer between different accounts leaves each
+party with exactly the starting info the SDK's own `initializeDelegation` would write for its new shares at that
+moment: two validator periods are ended during the call, the validator's current rewards are zero afterwards and
+the cumulative reward ratio is the same at both period ends (nothing is pending for either party); the recipient
+starts at the last period ended with stake `TokensFromSharesTruncated(old shares + X)` at the current height; the
+sender — if it keeps shares — starts at the first period ended with stake `TokensFromSharesTruncated(rest)` at the
+current height, and has no starting info left otherwise.  This is the theorem that depends on the stake / period /
+height expressions of the hand-written starting infos (regenerated in `cfg.prog`). -/
+theorem transfer_reinitialises (nAcc h0 : Nat) (vals : List (Nat × Nat)) (hv : vals.length ≤ nAcc) (ops : List Op)
+    {w : Nat} (hw : w < vals.length) {v' : VS} {h f t X rf rt : Nat} {recv : Bool} (hf : f < nAcc) (htn : t < nAcc)
+    (hne : f ≠ t) (ht : VS.transfer cfg (reachVS nAcc h0 vals ops w) h f t X recv = .ok (v', rf, rt)) :
+    ∃ fsh, (reachVS nAcc h0 vals ops w).del f = some fsh ∧
+      v'.period = (reachVS nAcc h0 vals ops w).period + 2 ∧ v'.cur = 0 ∧
+      v'.ratio (reachVS nAcc h0 vals ops w).period = v'.ratio ((reachVS nAcc h0 vals ops w).period + 1) ∧
+      v'.sinfo t = some ⟨(reachVS nAcc h0 vals ops w).period + 1,
+        v'.tokensFromSharesTrunc (((reachVS nAcc h0 vals ops w).del t).getD 0 + X), h⟩ ∧
+      v'.sinfo f = (if fsh - X = 0 then none
+        else some ⟨(reachVS nAcc h0 vals ops w).period, v'.tokensFromSharesTrunc (fsh - X), h⟩) :=
+  transfer_shape cfg_good (reach_SInv cfg_good nAcc h0 vals hv ops hw) hf htn hne ht
 
 /-- the failures of an operation that are ordinary refusals of the request, as opposed to failures of the
 distribution / staking bookkeeping -/
